@@ -12,9 +12,19 @@ CHECKS = {
    text="full: Interval/AngleInterval decision procedures proved equivalent to their set semantics over all of Q "
         "(every float is a rational): C16_contains_point, C16_contains_interval, C16_overlaps, C16_intersection, "
         "C16_add/sub/mul_image/div (image sets, never Err, start<=end), C16_round, C16_ctor_rejects/accepts, "
-        "C16_angle_contains (exists k), C16_angle_contains_interval, C16_angle_ctor_total, C16_angle_shift, loop termination",
+        "C16_angle_contains (exists k), C16_angle_contains_interval, C16_angle_ctor_total, C16_angle_shift, loop termination; "
+        "the model is the source: C16_model_is_source_interval / _angle prove every function of Model/Interval.v equal to the "
+        "Gallina text generated on every run from commonroad/common/util.py + validity.py by symbolic execution "
+        "(harness/vlib/py2coq.py -> Gen/Src_util.v: constructors with their setters' asserts, contains / overlaps / "
+        "intersection / arithmetic / round / comparisons, the while loops of make_valid_orientation(_interval) as fuelled "
+        "fixpoints, AngleInterval constructor / contains / shift), so a semantic change of the source breaks a proof obligation",
+   technique="machine-checked proof in Coq 8.16 of a Gallina model proved equal to a translation of the Python source "
+             "regenerated on every run (py2coq) + differential correspondence model-vs-implementation (vm_compute) + "
+             "property-oracle search for a failing input",
    note="model exact over Q, implementation rounded: end points compared within 1e-9, decisions nearer than 1e-9 to a "
-        "boundary excluded (counted in evidence). Python round modelled as exact round-half-even.",
+        "boundary excluded (counted in evidence). Python round modelled as exact round-half-even. py2coq is fail-closed (an "
+        "untranslatable construct => the broken obligation is reported); float division by zero is a guard in the translated "
+        "text (src_div is proved equal to the model for divisors <> 0 only... see C16_model_is_source_interval).",
    design="5/C16"),
 }
 import glob
